@@ -143,6 +143,11 @@ func (s *Store) persist(higher Snapshot, persistOptions StorePersistOptions) (
 	}
 	defer fref.DecRef()
 
+	// A file that was started just now for this round is referenced by
+	// nothing else; should the round fail, it must not be left behind
+	// (the retry would start yet another file).
+	startedFile := fref.FetchRefCount() == 1
+
 	// TODO: Pre-allocate file space up front?
 
 	// Recursively sort all child collection stacks if sorting was deferred.
@@ -156,18 +161,27 @@ func (s *Store) persist(higher Snapshot, persistOptions StorePersistOptions) (
 	// Recursively write out all the segments of the snapshot.
 	err = s.persistSegments(ss, footer, file, fref)
 	if err != nil {
+		if startedFile {
+			s.removeFileOnClose(fref)
+		}
 		return nil, err
 	}
 
 	// Recursively load all segments of the newly persisted footer.
 	err = footer.loadSegments(s.options, fref)
 	if err != nil {
+		if startedFile {
+			s.removeFileOnClose(fref)
+		}
 		return nil, err
 	}
 
 	// Recursively persist all footers of top-level and child collections.
 	err = s.persistFooter(file, footer, persistOptions)
 	if err != nil {
+		if startedFile {
+			s.removeFileOnClose(fref)
+		}
 		footer.DecRef()
 		return nil, err
 	}
